@@ -802,3 +802,196 @@ Example norm_1_relative_error_float_nonvacuous :
   let v := [0x1.999999999999ap-4%float; (-1.5)%float; 3%float] in
   ffinite (norm_1 (A := AF) v) /\ (INR (length v) * u64 < 1)%R.
 Proof. cbn zeta. split; [apply ffinite_SF; reflexivity|cbn; pose proof u64_small; lra]. Qed.
+
+(* Proofs/Round2PinExact.v -- package round2, item 4: pin blocks (format of CONVENTIONS section 2) for the binary64
+   exactness theorems of Proofs/Round2Lin.v (C15: linspace), Proofs/Round2Mesh.v (C19: Mesh1D::trapezium) and
+   Proofs/Round2MeshB.v (C19: Mesh1D::get_interpolated_vars).  To be appended to Props/C15.v resp. Props/C19.v.
+   FR x = real value of the primitive float x, ffinite x = x is finite (Proofs/ComplexRound.v); bpow radix2 e = 2^e. *)
+From Coq Require Import ZArith Reals Floats Lia Lra List Bool Arith.
+From Flocq Require Import Core.Core IEEE754.BinarySingleNaN IEEE754.PrimFloat.
+From OV Require Import Base.Panic Base.Arith Model.Vector Model.Mesh Inst.FloatInst Proofs.MeshBase Proofs.MeshQuad
+                       Proofs.ParDotFloat Proofs.ComplexRound Proofs.Round2Lin Proofs.Round2Mesh Proofs.Round2MeshB.
+From OV Require gen.Params.
+Import ListNotations.
+
+(* ==== C15 ==== *)
+(* linspace at binary64, first element: a + h*0 has the value of a whenever the step h = (b-a)/((n as f64) - 1) is
+   finite, and is the float a itself unless a is a zero (a = -0, h >= 0 gives +0); the length is n.
+   (For n = 1 the step is (b-a)/0 -- infinite or NaN -- and the only element is NaN: linspace_size1_nan.) *)
+Theorem linspace_first_exact_float : forall (a b : PrimFloat.float) (n : nat) (v : list PrimFloat.float),
+  linspace (F := SAF) a b n = Ok v -> (1 <= n)%nat -> ffinite a ->
+  ffinite ((b - a) / (f_of_nat n - 1))%float ->
+  length v = n /\ ffinite (nth 0 v 0%float) /\ FR (nth 0 v 0%float) = FR a /\
+  (FR a <> 0%R -> nth 0 v 0%float = a).
+Proof. intros a b n v E Hn Fa Fh. exact (linspace_first_exact_float_lemma a b n v E Hn Fa Fh). Qed.
+Check linspace_first_exact_float : forall (a b : PrimFloat.float) (n : nat) (v : list PrimFloat.float),
+  linspace (F := SAF) a b n = Ok v -> (1 <= n)%nat -> ffinite a ->
+  ffinite ((b - a) / (f_of_nat n - 1))%float ->
+  length v = n /\ ffinite (nth 0 v 0%float) /\ FR (nth 0 v 0%float) = FR a /\
+  (FR a <> 0%R -> nth 0 v 0%float = a).
+Print Assumptions linspace_first_exact_float.
+Example linspace_first_exact_float_nonvacuous :
+  linspace (F := SAF) 0.25%float 1.75%float 5 = Ok [0.25; 0.625; 1; 1.375; 1.75]%float /\ (1 <= 5)%nat /\
+  ffinite 0.25%float /\ ffinite ((1.75 - 0.25) / (f_of_nat 5 - 1))%float /\ FR 0.25%float <> 0%R /\
+  (* the sign caveat is real: for a = -0 the first element is +0 *)
+  (exists v, linspace (F := SAF) (-0)%float 1%float 3 = Ok v /\
+             PrimFloat.get_sign (nth 0 v 0%float) = false /\ PrimFloat.get_sign (-0)%float = true).
+Proof.
+  split; [vm_compute; reflexivity|]. split; [lia|]. split; [vm_compute; reflexivity|].
+  split; [vm_compute; reflexivity|]. split; [|exact linspace_first_negzero].
+  rewrite (Dy_FR _ _ _ ex_lin_a). simpl. lra.
+Qed.
+
+(* linspace at binary64 on dyadic endpoints a = ma 2^e, b = mb 2^e with size 2^k + 1: no operation rounds; element i
+   is EXACTLY the real grid point a + (b - a) i / (size - 1), the last element is b itself.
+   The bounds say: the numerators of b - a, a, b, scaled to the grid 2^(e-k) of the elements, fit in 53 bits, and
+   the step (b-a)/2^k does not underflow. *)
+Theorem linspace_exact_dyadic_float : forall (a b : PrimFloat.float) (ma mb e : Z) (k : nat) (v : list PrimFloat.float),
+  ffinite a -> FR a = (IZR ma * bpow radix2 e)%R -> ffinite b -> FR b = (IZR mb * bpow radix2 e)%R ->
+  (k <= 52)%nat -> (-1074 + Z.of_nat k <= e <= 971)%Z ->
+  (Z.abs (mb - ma) * 2 ^ Z.of_nat k < 2 ^ 53)%Z ->
+  (Z.abs ma * 2 ^ Z.of_nat k < 2 ^ 53)%Z -> (Z.abs mb * 2 ^ Z.of_nat k < 2 ^ 53)%Z ->
+  linspace (F := SAF) a b (2 ^ k + 1) = Ok v ->
+  length v = (2 ^ k + 1)%nat /\
+  (forall i, (i <= 2 ^ k)%nat ->
+     ffinite (nth i v 0%float) /\
+     FR (nth i v 0%float) = (FR a + (FR b - FR a) * INR i / INR (2 ^ k))%R) /\
+  FR (nth (2 ^ k) v 0%float) = FR b /\
+  (FR b <> 0%R -> nth (2 ^ k) v 0%float = b).
+Proof.
+  intros a b ma mb e k v Fa Ra Fb Rb Hk He Hd Ha Hb E.
+  exact (linspace_exact_dyadic_float_lemma a b ma mb e k v Fa Ra Fb Rb Hk He Hd Ha Hb E).
+Qed.
+Check linspace_exact_dyadic_float : forall (a b : PrimFloat.float) (ma mb e : Z) (k : nat) (v : list PrimFloat.float),
+  ffinite a -> FR a = (IZR ma * bpow radix2 e)%R -> ffinite b -> FR b = (IZR mb * bpow radix2 e)%R ->
+  (k <= 52)%nat -> (-1074 + Z.of_nat k <= e <= 971)%Z ->
+  (Z.abs (mb - ma) * 2 ^ Z.of_nat k < 2 ^ 53)%Z ->
+  (Z.abs ma * 2 ^ Z.of_nat k < 2 ^ 53)%Z -> (Z.abs mb * 2 ^ Z.of_nat k < 2 ^ 53)%Z ->
+  linspace (F := SAF) a b (2 ^ k + 1) = Ok v ->
+  length v = (2 ^ k + 1)%nat /\
+  (forall i, (i <= 2 ^ k)%nat ->
+     ffinite (nth i v 0%float) /\
+     FR (nth i v 0%float) = (FR a + (FR b - FR a) * INR i / INR (2 ^ k))%R) /\
+  FR (nth (2 ^ k) v 0%float) = FR b /\
+  (FR b <> 0%R -> nth (2 ^ k) v 0%float = b).
+Print Assumptions linspace_exact_dyadic_float.
+(* a = 1/4, b = 7/4 on the grid 2^-2, size 2^2 + 1; and the hypotheses fail to hold for linspace(0,1,50), whose last
+   element is 1 - 2^-53 *)
+Example linspace_exact_dyadic_float_nonvacuous :
+  ffinite 0.25%float /\ FR 0.25%float = (IZR 1 * bpow radix2 (-2))%R /\
+  ffinite 1.75%float /\ FR 1.75%float = (IZR 7 * bpow radix2 (-2))%R /\
+  (2 <= 52)%nat /\ (-1074 + Z.of_nat 2 <= -2 <= 971)%Z /\
+  (Z.abs (7 - 1) * 2 ^ Z.of_nat 2 < 2 ^ 53)%Z /\ (Z.abs 1 * 2 ^ Z.of_nat 2 < 2 ^ 53)%Z /\
+  (Z.abs 7 * 2 ^ Z.of_nat 2 < 2 ^ 53)%Z /\
+  linspace (F := SAF) 0.25%float 1.75%float (2 ^ 2 + 1) = Ok [0.25; 0.625; 1; 1.375; 1.75]%float /\
+  (exists v, linspace (F := SAF) 0%float 1%float 50 = Ok v /\ PrimFloat.eqb (nth 49 v 0%float) 1%float = false /\
+             PrimFloat.ltb (nth 49 v 0%float) 1%float = true).
+Proof.
+  split; [exact (proj1 ex_lin_a)|]. split; [exact (proj2 ex_lin_a)|].
+  split; [exact (proj1 ex_lin_b)|]. split; [exact (proj2 ex_lin_b)|].
+  split; [lia|]. split; [simpl; lia|]. split; [simpl; lia|]. split; [simpl; lia|]. split; [simpl; lia|].
+  split; [exact linspace_exact_dyadic_example|exact linspace_last_not_b].
+Qed.
+
+(* linspace at binary64 for ANY size n >= 2 when the step is exact: endpoints ma 2^e, mb 2^e on a common exponent with
+   (n - 1) | (mb - ma) -- e.g. integer endpoints whose difference is a multiple of the number of intervals
+   (linspace(0,10,11)); the dyadic case above is the instance n - 1 = 2^k on the grid 2^(e-k).  Every element is
+   exactly (ma + d i) 2^e = a + (b - a) i / (n - 1), the last one is b itself. *)
+Theorem linspace_exact_divisible_float : forall (a b : PrimFloat.float) (ma mb d e : Z) (n : nat) (v : list PrimFloat.float),
+  ffinite a -> FR a = (IZR ma * bpow radix2 e)%R -> ffinite b -> FR b = (IZR mb * bpow radix2 e)%R ->
+  (2 <= n)%nat -> (Z.of_nat n < 2 ^ 53)%Z -> (-1074 <= e <= 971)%Z ->
+  (mb - ma = d * (Z.of_nat n - 1))%Z ->
+  (Z.abs (mb - ma) < 2 ^ 53)%Z -> (Z.abs ma < 2 ^ 53)%Z -> (Z.abs mb < 2 ^ 53)%Z ->
+  linspace (F := SAF) a b n = Ok v ->
+  length v = n /\
+  (forall i, (i < n)%nat ->
+     ffinite (nth i v 0%float) /\
+     FR (nth i v 0%float) = (FR a + (FR b - FR a) * INR i / INR (n - 1))%R /\
+     FR (nth i v 0%float) = (IZR (ma + d * Z.of_nat i) * bpow radix2 e)%R) /\
+  FR (nth (n - 1) v 0%float) = FR b /\
+  (FR b <> 0%R -> nth (n - 1) v 0%float = b).
+Proof.
+  intros a b ma mb d e n v Fa Ra Fb Rb Hn Hn' He Hdiv Hd Ha Hb E.
+  exact (linspace_exact_divisible_float_lemma a b ma mb d e n v Fa Ra Fb Rb Hn Hn' He Hdiv Hd Ha Hb E).
+Qed.
+Check linspace_exact_divisible_float : forall (a b : PrimFloat.float) (ma mb d e : Z) (n : nat) (v : list PrimFloat.float),
+  ffinite a -> FR a = (IZR ma * bpow radix2 e)%R -> ffinite b -> FR b = (IZR mb * bpow radix2 e)%R ->
+  (2 <= n)%nat -> (Z.of_nat n < 2 ^ 53)%Z -> (-1074 <= e <= 971)%Z ->
+  (mb - ma = d * (Z.of_nat n - 1))%Z ->
+  (Z.abs (mb - ma) < 2 ^ 53)%Z -> (Z.abs ma < 2 ^ 53)%Z -> (Z.abs mb < 2 ^ 53)%Z ->
+  linspace (F := SAF) a b n = Ok v ->
+  length v = n /\
+  (forall i, (i < n)%nat ->
+     ffinite (nth i v 0%float) /\
+     FR (nth i v 0%float) = (FR a + (FR b - FR a) * INR i / INR (n - 1))%R /\
+     FR (nth i v 0%float) = (IZR (ma + d * Z.of_nat i) * bpow radix2 e)%R) /\
+  FR (nth (n - 1) v 0%float) = FR b /\
+  (FR b <> 0%R -> nth (n - 1) v 0%float = b).
+Print Assumptions linspace_exact_divisible_float.
+(* a = -3, b = 12, n = 6: step 3 *)
+Example linspace_exact_divisible_float_nonvacuous :
+  ffinite (-3)%float /\ FR (-3)%float = (IZR (-3) * bpow radix2 0)%R /\
+  ffinite 12%float /\ FR 12%float = (IZR 12 * bpow radix2 0)%R /\
+  (2 <= 6)%nat /\ (Z.of_nat 6 < 2 ^ 53)%Z /\ (-1074 <= 0 <= 971)%Z /\
+  (12 - -3 = 3 * (Z.of_nat 6 - 1))%Z /\
+  (Z.abs (12 - -3) < 2 ^ 53)%Z /\ (Z.abs (-3) < 2 ^ 53)%Z /\ (Z.abs 12 < 2 ^ 53)%Z /\
+  linspace (F := SAF) (-3)%float 12%float 6 = Ok [-3; 0; 3; 6; 9; 12]%float.
+Proof.
+  split; [exact (proj1 ex_lin_m3)|]. split; [exact (proj2 ex_lin_m3)|].
+  split; [exact (proj1 ex_lin_12)|]. split; [exact (proj2 ex_lin_12)|].
+  split; [lia|]. split; [simpl; lia|]. split; [lia|]. split; [simpl; lia|].
+  split; [simpl; lia|]. split; [simpl; lia|]. split; [simpl; lia|]. exact linspace_exact_divisible_example.
+Qed.
+
+(* the step h = (b - a)/((n as f64) - 1) of linspace is finite whenever b - a is finite and 2 <= n < 2^53
+   (discharges the hypothesis of linspace_first_exact_float; for n = 1 the step is a division by zero) *)
+Theorem linspace_step_finite_float : forall (a b : PrimFloat.float) (n : nat),
+  ffinite (b - a)%float -> (2 <= n)%nat -> (Z.of_nat n < 2 ^ 53)%Z ->
+  ffinite ((b - a) / (f_of_nat n - 1))%float.
+Proof. intros a b n Fd Hn Hn'. exact (lin_h_finite a b n Fd Hn Hn'). Qed.
+Check linspace_step_finite_float : forall (a b : PrimFloat.float) (n : nat),
+  ffinite (b - a)%float -> (2 <= n)%nat -> (Z.of_nat n < 2 ^ 53)%Z ->
+  ffinite ((b - a) / (f_of_nat n - 1))%float.
+Print Assumptions linspace_step_finite_float.
+Example linspace_step_finite_float_nonvacuous :
+  ffinite (1.75 - 0.25)%float /\ (2 <= 5)%nat /\ (Z.of_nat 5 < 2 ^ 53)%Z /\
+  (* n = 1: the step is not finite *)
+  PrimFloat.is_finite ((1.75 - 0.25) / (f_of_nat 1 - 1))%float = false.
+Proof. split; [vm_compute; reflexivity|]. split; [lia|]. split; [simpl; lia|vm_compute; reflexivity]. Qed.
+
+
+(* ======================================================================================================
+   C15 (vectors), rounding half at binary64 -- package round2.  Append to Props/C15.v.
+   norm_2 "to rounding accuracy" for the PRIMITIVE-FLOAT instance itself (norm_2 at SAF, IEEE binary64), through Flocq:
+   whenever the computed norm is finite and no square underflows, it is the exact Euclidean norm of the data times
+   (1 + th), |th| <= gam_{n+1}, u = 2^-53.  (The standard-model statement is norm_2_relative_error of package round.)
+   Unproved remainder: squares that fall into the subnormal range, overflowing squares (the unscaled-squares finding of
+   C15 is exactly the case where the hypothesis "finite" fails for representable norms).
+   ====================================================================================================== *)
+From Coq Require Import Reals Floats List Lra Lia.
+From OV Require Import Base.RoundModel Model.Vector Model.Iter Inst.FloatInst Proofs.ComplexRound Proofs.RoundDotFloat
+  Proofs.Round2Norm2F.
+Import ListNotations.
+
+Theorem norm_2_relative_error_float : forall (v : list PrimFloat.float),
+  ffinite (norm_2 (F := SAF) PrimFloat.abs v) ->
+  (forall k, (k < length v)%nat -> no_underflow (FR (nth k v 0%float) * FR (nth k v 0%float))%R) ->
+  (INR (length v + 1) * u64 < 1)%R ->
+  exists th : R, (Rabs th <= g64 (length v + 1))%R /\
+    FR (norm_2 (F := SAF) PrimFloat.abs v)
+    = (R_sqrt.sqrt (Rsum (length v) (fun k => (FR (nth k v 0%float) * FR (nth k v 0%float))%R)) * (1 + th))%R.
+Proof. intros v. exact (norm_2_relative_error_float_lemma v). Qed.
+Check norm_2_relative_error_float : forall (v : list PrimFloat.float),
+  ffinite (norm_2 (F := SAF) PrimFloat.abs v) ->
+  (forall k, (k < length v)%nat -> no_underflow (FR (nth k v 0%float) * FR (nth k v 0%float))%R) ->
+  (INR (length v + 1) * u64 < 1)%R ->
+  exists th : R, (Rabs th <= g64 (length v + 1))%R /\
+    FR (norm_2 (F := SAF) PrimFloat.abs v)
+    = (R_sqrt.sqrt (Rsum (length v) (fun k => (FR (nth k v 0%float) * FR (nth k v 0%float))%R)) * (1 + th))%R.
+Print Assumptions norm_2_relative_error_float.
+(* [1; 1]: the norm sqrt 2 is inexact, the computed one is finite, the squares are 1 *)
+Example norm_2_relative_error_float_nonvacuous :
+  ffinite (norm_2 (F := SAF) PrimFloat.abs ex_n2) /\
+  (forall k, (k < length ex_n2)%nat -> no_underflow (FR (nth k ex_n2 0%float) * FR (nth k ex_n2 0%float))%R) /\
+  (INR (length ex_n2 + 1) * u64 < 1)%R.
+Proof. exact ex_n2_conditions. Qed.
